@@ -16,6 +16,7 @@ echo "== (2) demo with patch"
 go test -vet=off -count=1 -run "^($run)\$" -timeout 300s . 2>&1 | grep -E "^(--- FAIL|FAIL|ok|panic:|fatal)" | head -8; r2=${PIPESTATUS[0]}
 rm -f $wt/$(basename $demo)
 echo "== (3) existing suite with patch"
-go test -vet=off -count=1 -timeout 25m . 2>&1 | tail -3; r3=${PIPESTATUS[0]}
+# the suite uses fixed ports and /dev/shm paths: run it in private network+mount namespaces so that concurrent suites cannot interfere
+unshare -n -m bash -c "ip link set lo up; mount -t tmpfs tmpfs /dev/shm; cd $wt && go test -vet=off -count=1 -timeout 25m . 2>&1 | tail -3; exit \${PIPESTATUS[0]}"; r3=$?
 echo "RESULT $id demo_on_head=$r1 demo_with_patch=$r2 suite_with_patch=$r3 build=$r4"
 [ $r1 = 0 ] && [ $r2 != 0 ] && [ $r3 = 0 ] && [ $r4 = 0 ] && echo "CONFIRMED $id" || echo "NOT-CONFIRMED $id"
